@@ -12,7 +12,7 @@ use serde_json::{json, Value};
 pub const EXHAUSTIVE_PAIRS: usize = 4;
 
 pub fn runs_c08(t: Tier) -> usize {
-    EXHAUSTIVE_PAIRS + t.pick(1500, 60000)
+    EXHAUSTIVE_PAIRS + t.pick(1500, 60000) + C08_PAR
 }
 
 fn official(i: usize, p: &mut Prng) -> ([u8; 16], [u8; 16]) {
@@ -100,9 +100,38 @@ fn exhaustive(p: &mut Prng, pair: usize, sink: &mut Sink) {
     run_history(sink, &k, &iv, &[0, 0, 1], false);
 }
 
+const C08_PAR: usize = 12;
+pub fn isolated_c08(t: Tier, i: usize) -> bool {
+    i >= runs_c08(t) - C08_PAR
+}
+
+/// In a worker process of its own: the FIRST requests of two generators are made by two simulated
+/// caller threads (sizes from 1 to 4096 words, so that whatever the library prepares lazily on a
+/// first small, long or very long request is prepared by two callers at once), then each stream
+/// continues and is compared word for word as always.
+fn first_requests_side_by_side(p: &mut Prng, w: &mut World) {
+    for g in 0..2 {
+        let (k, iv) = key_iv_class(p);
+        w.exec(new_op(&format!("g{g}"), &k, &iv));
+    }
+    let size = |p: &mut Prng| -> usize { *p.pick(&[1usize, 15, 16, 17, 255, 256, 257, 300, 1024, 4096]) };
+    for round in 0..3 {
+        let (a, b) = (if round == 0 { size(p) } else { p.range(0, 600) }, if round == 0 { size(p) } else { p.range(0, 600) });
+        w.exec(par(req_op("g0", a), req_op("g1", b), &par_order(p)));
+    }
+    w.bump("history.first-requests-side-by-side");
+}
+
 pub fn run_c08(p: &mut Prng, t: Tier, i: usize, sink: &mut Sink) {
     if i < EXHAUSTIVE_PAIRS {
         exhaustive(p, i, sink);
+        return;
+    }
+    if isolated_c08(t, i) {
+        let mut w = World::new();
+        first_requests_side_by_side(p, &mut w);
+        w.objs.zuc.clear();
+        sink.done(w);
         return;
     }
     let ngen = p.range(1, 4);
